@@ -356,7 +356,7 @@ class InspectSeedIndependence(Unit):
                  "orquesta.specs.native.v1.models.TaskMappingSpec.detect_unreachable_tasks"]
     obligations = {
         "C19.inspect.seed_independent": {"props": ["C19"], "text":
-            "inspection of a definition whose branches accumulate the same context variables in different orders, with errors downstream, yields the identical report (and the composer the identical graph) in interpreters started with different hash seeds"},
+            "inspection of a definition whose branches accumulate the same context variables in different orders, with errors downstream, yields the identical report (and the composer the identical graph) in interpreters started with different hash seeds; so does the evaluation of expressions, the key and item views of a dict included (which must come back as JSON lists)"},
     }
     assumptions = ["BOUNDED: 3 definitions x 8 hash seeds, each in a fresh interpreter (cross-process replay: the functions use set iteration in ways the engine does not interpret - a stand-in, not a proof)"]
     trusted = ["CPython"]
@@ -389,7 +389,10 @@ class InspectSeedIndependence(Unit):
                 "from orquesta.expressions import base as eb\n"
                 "try:\n    ev = eb.evaluate('{{ ctx().a }} and <%% ctx().b %%>', {'a': 1, 'b': 2})\nexcept Exception as e:\n    ev = repr(e)\n"
                 "try:\n    ev2 = eb.evaluate('<%% ctx().m1 %%> <%% ctx().m2 %%>', {'a': 1})\nexcept Exception as e:\n    ev2 = str(e)\n"
-                "print(json.dumps([rep, g, ev, ev2], sort_keys=True))\n" % root)
+                "inv = {'inventory': {'web1': 1, 'db7': 2, 'cache3': 3, 'app': 4, 'queue9': 5, 'lb': 6}}\n"
+                "try:\n    ev3 = [eb.evaluate('<%% ctx().inventory.keys() %%>', inv), eb.evaluate('<%% ctx().inventory.items().select($[0]) %%>', inv)]\n"
+                "except Exception as e:\n    ev3 = str(e)\n"
+                "print(json.dumps([rep, g, ev, ev2, ev3], sort_keys=True))\n" % root)
 
         def thunk(e):
             for k, d in enumerate(defs):
@@ -576,6 +579,8 @@ class GraphWrapper(Unit):
                         pt = gg.get_prev_transitions(name)
                         wantp = [x for x in edges if x[1] == name]
                         ok = ok and sorted((a, b, k) for a, b, k, at in pt) == sorted((a, b, k) for a, b, k, at in wantp)
+                        # ... in one order, whether the graph was composed or restored (by source and key)
+                        ok = ok and [(a, k) for a, b, k, at in pt] == sorted((a, k) for a, b, k, at in pt)
                         t1, t2 = gg.get_task(name), gg.get_task(name)
                         ok = ok and t1 == dict({"id": name}, **nodes[name]) and t1 is not t2
                         if "retry" in nodes[name]:
